@@ -635,6 +635,36 @@ pub fn run(ctx: &Ctx) -> Report {
         }
     });
     total.merge(r2);
+    // (2b) directed: one property repeated 2 .. 1000 times in every location that carries properties (a tally of
+    // occurrences must not overflow or wrap whatever its width)
+    let r2b = run_cases(ctx, 5, 2, rule, |i, _seed, rep| {
+        use crate::checks::c18::{carrier, legal_value, with_auth_method};
+        for (id, _, _) in PROP_TABLE.iter() {
+            for loc in ALL_LOCS {
+                if !prop_allowed(*id, loc) {
+                    continue;
+                }
+                for count in [2usize, 3, 127, 128, 255, 256, 257, 511, 512, 1000] {
+                    let p = Prop { id: *id, val: legal_value(*id) };
+                    let list: Vec<Prop> = (0..count).map(|_| p.clone()).collect();
+                    let (props, auth_has_method) = if *id == 21 { (list, false) } else { with_auth_method(loc, list) };
+                    let a = carrier(loc, props, auth_has_method, (count % 2) as u8);
+                    let idw = if i == 0 { 2 } else { 4 };
+                    let frame = rc::encode(&a, idw);
+                    let crate::refcodec::Framed::Frame { first, body_off, total } = rc::frame_at(&frame) else { continue };
+                    rep.hit("D8-property-repeated-many-times");
+                    let origin = format!("property {} x{} in {:?}", id, count, loc);
+                    if i == 0 {
+                        judge::<u16>(first, &frame[body_off..total], Ver::V5, &origin, rep, (5, i));
+                    } else {
+                        judge::<u32>(first, &frame[body_off..total], Ver::V5, &origin, rep, (5, i));
+                    }
+                    rep.distinct_case(format!("rep {} {} {:?} {}", id, count, loc, i).as_bytes());
+                }
+            }
+        }
+    });
+    total.merge(r2b);
     // (3) random
     let n3 = ctx.budget(400_000, 30_000_000);
     let r3 = run_cases(ctx, 3, n3, rule, |i, seed, rep| {
